@@ -1,9 +1,9 @@
 SPECIFICATION Spec
 CONSTANTS
   N = 4
-  MaxView = 1
+  MaxView = 0
   Height = 1
-  InitSilentSets <- SilentAny
+  InitSilentSets <- SilentNone
   MaxSilentChanges = 0
 INVARIANTS Agreement AcceptJustified CommitLock
 CHECK_DEADLOCK FALSE
